@@ -335,7 +335,9 @@ def c12(tier):
 
 def c13(tier):
     v = Verdict("C13", tier)
-    cases = tlc_cases(v, "intended/StmtKv.cfg" if tier != "thorough" else "intended/StmtKvT.cfg")
+    cases = tlc_cases(v, "intended/StmtKv.cfg")
+    if tier == "thorough":
+        cases += tlc_cases(v, "intended/StmtKvT.cfg")
     r = run_tlc("MCStmt.tla", "asfound/StmtInsertPoint.cfg", workers=4, coverage=False)
     if r.violated not in ("RoundTrip", "StillAccepted"):
         raise ToolError("as-found insertion point not refuted by TLC: %s" % r.violated)
@@ -352,8 +354,9 @@ def c13(tier):
 def directive_packs(v, tier, cfg_tier=None):
     """The files of Directives.tla: packed (250 cases per file) and a sample one case per file."""
     t = cfg_tier or tier
-    cases = tlc_cases(v, "intended/DirectivesT.cfg" if t == "thorough" else "intended/DirectivesQ.cfg",
-                      module="Directives.tla", tag="DIR")
+    cases = tlc_cases(v, "intended/DirectivesQ.cfg", module="Directives.tla", tag="DIR")
+    if t == "thorough":
+        cases += tlc_cases(v, "intended/DirectivesT.cfg", module="Directives.tla", tag="DIR")
     packs = []
     uid = 2000
     for mode in ("structured", "unstructured"):
